@@ -3,6 +3,15 @@
    (1 2 shape datalen)                Tensor::from / try_from over data [0, datalen)
    (1 3 shape req probes)             Tensor::from_fn (producer fold(acc*7+i+1) from 1000), then
                                       access by req
+   (1 4 0 v)                          0-D conversions (From<T> for Tensor<T,0>, into_scalar, scalar, first)
+   (1 4 1 rows cols data rn cn wr wc v)  every Tensor<T,2> <-> Matrix conversion and the interop
+                                      wrappers (TensorRefMatrix / MatrixRefTensor), element exact at every
+                                      (r, c) incl. one past the end, error payloads, a write of v at (wr, wc)
+                                      through both mutable faces; result list A..G (Run/RunC01.v header)
+   (1 4 2 shape data)                 the From impls of TensorView, any D
+   Op 4 generator: every R x C for R, C in 1..4 (1x1, 1xN, Nx1, square, non-square) with data
+   100*r + c + offset, names distinct / equal / prefix-sharing, writes at an in-range cell, the last
+   cell, one past the end in each coordinate and the transposed cell; some larger shapes.
    Exhaustive: D = 0..4 with lengths 1..3 (1..2 for D = 4 in the quick tier), every ordering,
    every probe over {0..len}^D; D = 1..3 every single-name substitution by a foreign / repeated
    name; D = 1 every foreign name 0..12; huge coordinates (2^63, 2^63+1, usize::MAX / stride
@@ -181,6 +190,7 @@ def gen(tier, rng):
         lens_req = [lens[p] for p in perm]
         probes = [[rng.randrange(l + 1) for l in lens_req] for _ in range(10)]
         yield sx([1, 3, [[n, l] for n, l in zip(names, lens)], [names[p] for p in perm], probes])
+    yield from conv_cases(quick, rng)
     # --- constructors: valid / duplicate names / zero lengths / wrong data length
     for D in range(0, 5):
         for lens in itertools.product(range(0, 4), repeat=D):
@@ -193,6 +203,32 @@ def gen(tier, rng):
                     yield sx([1, 2, shape, dl])
 
 
+def conv_cases(quick, rng):
+    """op 4: conversions"""
+    for v in (0, 1, -1, 7, -(2 ** 63), 2 ** 63 - 1):
+        yield sx([1, 4, 0, v])
+    shapes2 = [(r, c) for r in range(1, 5) for c in range(1, 5)]
+    shapes2 += [(1, 9), (9, 1), (5, 7), (7, 5), (8, 8), (2, 31), (31, 2)] + ([] if quick else [(64, 64), (1, 64), (64, 1), (13, 17)])
+    for (R, C) in shapes2:
+        for off in (1000, -5000):
+            data = [100 * r + c + off for r in range(R) for c in range(C)]
+            for rn, cn in ((0, 1), (1, 0), (1, 10), (10, 1), (3, 3), (0, 0), (10, 10)):
+                writes = {(0, 0), (R - 1, C - 1), (R, 0), (0, C), (R, C), (C - 1, R - 1), (R - 1, 0), (0, C - 1),
+                          (rng.randrange(R), rng.randrange(C)), (MAXU, 0), (0, MAXU), (R - 1, C), (R, C - 1)}
+                if rn == cn or off != 1000:
+                    writes = {(R - 1, C - 1), (C - 1, R - 1), (R, C - 1)}
+                for (wr, wc) in sorted(writes):
+                    yield sx([1, 4, 1, R, C, data, rn, cn, wr, wc, -7])
+    # TensorView From impls: every shape with lengths 1..3 for D 0..3, some D 4..6, and rejected ones
+    for D in range(0, 7):
+        for lens in itertools.product((1, 2, 3), repeat=D) if D <= 3 else [tuple(rng.choice((1, 2, 3)) for _ in range(D)) for _ in range(8)]:
+            shape = [[d, l] for d, l in enumerate(lens)]
+            yield sx([1, 4, 2, shape, [10 + i for i in range(elements(shape))]])
+    yield sx([1, 4, 2, [[0, 2], [0, 2]], [1, 2, 3, 4]])
+    yield sx([1, 4, 2, [[0, 2], [1, 2]], [1, 2, 3]])
+    yield sx([1, 4, 2, [[0, 0]], []])
+
+
 def nontrivial(case, model_out):
     """an accepted non-identity ordering with at least one present probe, or a rejected
     constructor / ordering"""
@@ -200,6 +236,8 @@ def nontrivial(case, model_out):
         return model_out.startswith("(0 (0") and "((" in model_out
     if case.startswith("(1 3"):
         return model_out.startswith("(0 ") and "((" in model_out
+    if case.startswith("(1 4"):
+        return not model_out.startswith("(-1")
     return True
 
 
